@@ -173,6 +173,10 @@ func (l c05) Exec(env *core.Env) *core.Result {
 			switch answer {
 			case 1:
 				val.Err = errors.New("simulated: validator failed")
+				if w["short"]%2 == 1 {
+					// an error of the context family (the validator's own HTTP timeout), the caller's context being alive
+					val.Err = fmt.Errorf("simulated: OCSP request: %w", context.DeadlineExceeded)
+				}
 			case 4: // the error comes together with a complete result vector
 				val.Err, val.ErrWithResults = errors.New("simulated: refresh failed, results may be stale"), true
 			case 2:
